@@ -94,13 +94,17 @@ type Scenario struct {
 	MaxChunk int `json:"max_chunk,omitempty"`
 	// MaxChunkSrv, if non-zero, is the server's max chunk size (-1: none);
 	// otherwise both ends use MaxChunk.
-	MaxChunkSrv int        `json:"max_chunk_srv,omitempty"`
-	Client      TimeoutCfg `json:"client"`
-	Server      TimeoutCfg `json:"server"`
-	LatC2SMs    int        `json:"lat_c2s_ms"`
-	LatS2CMs    int        `json:"lat_s2c_ms"`
-	C2S         []Msg      `json:"c2s,omitempty"`
-	S2C         []Msg      `json:"s2c,omitempty"`
+	MaxChunkSrv int `json:"max_chunk_srv,omitempty"`
+	// NoRecvC2S / NoRecvS2C: the application receiving that direction never
+	// calls Recv (the endpoint's receive buffer fills up).
+	NoRecvC2S bool       `json:"norecv_c2s,omitempty"`
+	NoRecvS2C bool       `json:"norecv_s2c,omitempty"`
+	Client    TimeoutCfg `json:"client"`
+	Server    TimeoutCfg `json:"server"`
+	LatC2SMs  int        `json:"lat_c2s_ms"`
+	LatS2CMs  int        `json:"lat_s2c_ms"`
+	C2S       []Msg      `json:"c2s,omitempty"`
+	S2C       []Msg      `json:"s2c,omitempty"`
 
 	FaultsC2S       []Decision `json:"faults_c2s,omitempty"`
 	FaultsS2C       []Decision `json:"faults_s2c,omitempty"`
@@ -338,7 +342,13 @@ func (e *Env) StartReceiver(d int) {
 // StartTraffic starts senders and receivers on both directions.
 func (e *Env) StartTraffic() {
 	for d := 0; d < 2; d++ {
-		e.StartReceiver(d)
+		if (d == 0 && e.Sc.NoRecvC2S) || (d == 1 && e.Sc.NoRecvS2C) {
+			e.Mu.Lock()
+			e.Dir[d].ReceiverExited = true // no Recv call is ever pending
+			e.Mu.Unlock()
+		} else {
+			e.StartReceiver(d)
+		}
 		e.StartSender(d)
 	}
 }
@@ -512,6 +522,13 @@ type BubbleOutcome struct {
 	Deadlock bool   // goroutines were still blocked when the root returned
 }
 
+// FreezeHook, if set, is given the goroutine dump when the watchdog fires,
+// before the process exits with code 97. A check whose subject is "this call
+// returns" uses it to tell a call of the code under test that never returns
+// (other callers then wait on a mutex, which stops virtual time) from an
+// engine limitation.
+var FreezeHook func(stacks string)
+
 // InBubble runs f in a synctest bubble and converts the panic synctest raises
 // when goroutines are left behind (and any panic of f itself) into a value. A
 // real-time watchdog aborts the process with exit code 97 if the bubble makes
@@ -527,6 +544,9 @@ func InBubble(t *testing.T, watchdog time.Duration, f func()) (out BubbleOutcome
 				buf := make([]byte, 1<<20)
 				n := runtime.Stack(buf, true)
 				fmt.Fprintf(os.Stderr, "VERIF-ENGINE-FREEZE: bubble made no progress for %v\n%s\n", watchdog, buf[:n])
+				if h := FreezeHook; h != nil {
+					h(string(buf[:n]))
+				}
 				os.Exit(97)
 			}
 		}()
